@@ -23,7 +23,7 @@ EXTENDS Integers, Sequences, FiniteSets, TLC, Json, FiniteSetsExt, SequencesExt,
 CONSTANTS D,        \* number of modes (>= 2)
           NPre,     \* mode size of the modes 1..D-1
           NE,       \* max number of entries (= size of the last mode)
-          EMax,     \* max energy per entry
+          EMin, EMax,   \* min / max energy per entry (EMin = 0 admits exactly-zero entries and the zero tensor)
           Dirs,     \* subset of {"rtl", "ltr", "rel"}
           Caps,     \* set of caps (99 = no cap)
           Canon     \* TRUE: entries listed in non-decreasing code order (symmetry: permuting the last index)
@@ -68,7 +68,7 @@ RECURSIVE PreCode(_, _)
 PreCode(p, j) == IF j > Len(p) THEN 0 ELSE p[j] + NPre * PreCode(p, j + 1)
 Code(e) == e.en + (EMax + 1) * PreCode(e.pre, 1)
 Init ==
-  /\ \E ne \in 1..NE : ent \in [1..ne -> [pre : PreTuples, en : 1..EMax]]
+  /\ \E ne \in 1..NE : ent \in [1..ne -> [pre : PreTuples, en : EMin..EMax]]
   /\ (Canon => \A t \in 1..(Len(ent)-1) : Code(ent[t]) <= Code(ent[t+1]))
   /\ dir \in Dirs
   /\ T \in 0..(NE * EMax)
@@ -113,7 +113,8 @@ RankQuasiOpt == Done => \A b \in 1..(D-1) : ranks[b] <= Max2(1, MinRankIn(b))
 \* err^2 <= sum over unfoldings of the best possible error at the returned rank
 ErrVsBest == Done => dropped <= FoldSet(LAMBDA b, acc : acc + BestErr(SpecOf(InEn(b)), ranks[b]), 0, 1..(D-1))
 \* exact low rank is kept: budget 0 drops nothing
-ExactKept == (Done /\ T = 0 /\ dir # "rel" /\ ~capHit) => (dropped = 0 /\ \A b \in 1..(D-1) : ranks[b] = InRank(b))
+PosRank(b) == Cardinality({ g \in DOMAIN InEn(b) : InEn(b)[g] > 0 })          \* the true rank of unfolding b
+ExactKept == (Done /\ T = 0 /\ dir # "rel" /\ ~capHit) => (dropped = 0 /\ \A b \in 1..(D-1) : ranks[b] = Max2(1, PosRank(b)))
 \* the surviving tensor keeps the family and the shape
 LiveOK == live \subseteq DOMAIN ent
 
